@@ -160,9 +160,9 @@ func (c *Ctx) tlPrimitives() {
 		closure := c.helperClosure(f, 2, nil)
 		for _, g := range closure {
 			allInstrs(g, func(_ *ssa.BasicBlock, i ssa.Instruction) {
-				if bo, ok := i.(*ssa.BinOp); ok && bo.Op == token.REM {
-					if k, ok := constInt(bo.Y); ok {
-						mods = append(mods, k)
+				if bo, ok := i.(*ssa.BinOp); ok {
+					if m, ok := modulus(bo); ok {
+						mods = append(mods, m)
 					}
 				}
 			})
@@ -183,10 +183,13 @@ func (c *Ctx) tlPrimitives() {
 				}
 				k, ok1 := constInt(sub.X)
 				rem, ok2 := sub.Y.(*ssa.BinOp)
-				if !ok1 || !ok2 || rem.Op != token.REM {
+				if !ok1 || !ok2 {
 					return
 				}
-				m, _ := constInt(rem.Y)
+				m, okM := modulus(rem)
+				if !okM {
+					return
+				}
 				guarded := false
 				for _, ft := range factsAt(g, b) {
 					if cmp, ok := ft.Cond.(*ssa.BinOp); ok && cmp.X == ssa.Value(rem) {
@@ -207,7 +210,8 @@ func (c *Ctx) tlPrimitives() {
 			continue
 		}
 		perm := map[int64]int64{}
-		allInstrs(f, func(_ *ssa.BasicBlock, i ssa.Instruction) {
+		// (compareWithTag may reuse encodeTag for the decoding and reversal: read through the helper)
+		c.allInstrsDeep(f, func(_ *ssa.BasicBlock, i ssa.Instruction) {
 			st, ok := i.(*ssa.Store)
 			if !ok {
 				return
@@ -416,15 +420,31 @@ func (c *Ctx) tlKindTable() {
 				continue
 			}
 			bo, ok := iff.Cond.(*ssa.BinOp)
-			if !ok || bo.Op != token.LSS {
+			if !ok {
 				continue
 			}
-			if _, isPhi := bo.X.(*ssa.Phi); !isPhi {
+			phi, isPhi := bo.X.(*ssa.Phi)
+			if !isPhi {
+				continue
+			}
+			// counting up to the count (i < n), or down from it (left > 0 with left starting at n)
+			bound := bo.Y
+			if z, isZ := constInt(bo.Y); isZ && z == 0 && (bo.Op == token.GTR || bo.Op == token.NEQ) {
+				bound = nil
+				for _, e := range phi.Edges {
+					if _, isOp := e.(*ssa.BinOp); !isOp {
+						bound = e
+					}
+				}
+			} else if bo.Op != token.LSS {
 				continue
 			}
 			n++
-			_, root := convChain(bo.Y)
-			cl := callOf(root)
+			var cl *ssa.Call
+			if bound != nil {
+				_, root := convChain(bound)
+				cl = callOf(root)
+			}
 			if cl == nil || callQName(&cl.Call) != "encoding/binary.littleEndian.Uint32" {
 				okv = false
 				desc = shape(bo.Y, 3)
@@ -471,7 +491,11 @@ func (c *Ctx) tlKindTable() {
 		_, _, hasLo, _ := int64(0), int64(0), false, false
 		_ = hasLo
 		four := false
-		for _, b := range f.Blocks {
+		var fblocks []*ssa.BasicBlock
+		for _, g := range c.deepFns(f) {
+			fblocks = append(fblocks, g.Blocks...)
+		}
+		for _, b := range fblocks {
 			if ifi := lastIf(b); ifi != nil {
 				if bo, ok := ifi.Cond.(*ssa.BinOp); ok && (bo.Op == token.NEQ || bo.Op == token.EQL) {
 					if k, ok := constInt(bo.Y); ok && k == 4 && lenOf(nil)(bo.X) {
@@ -522,4 +546,23 @@ func keysOfInt(m map[int64]bool) []int64 {
 	}
 	sort.Slice(ks, func(i, j int) bool { return ks[i] < ks[j] })
 	return ks
+}
+
+// modulus: x % M, or x & (M-1) for a power of two M (the same remainder for the non-negative lengths
+// involved): returns M.
+func modulus(bo *ssa.BinOp) (int64, bool) {
+	k, ok := constInt(bo.Y)
+	if !ok {
+		return 0, false
+	}
+	switch bo.Op {
+	case token.REM:
+		return k, true
+	case token.AND:
+		m := k + 1
+		if m >= 2 && m <= 64 && m&(m-1) == 0 {
+			return m, true
+		}
+	}
+	return 0, false
 }
